@@ -283,7 +283,7 @@ def _classes():
             if flavour == "lambda":
                 return (lambda index, value=None: body(index, value)), "<lambda>"
             if flavour == "partial":
-                return functools.partial(lambda tag, index, value=None: body(index, value), j), None
+                return functools.partial(lambda tag, index, value=None: body(index, value), j), "partial.__call__"
             if flavour in ("object", "named_object", "named_object_int"):
                 class Obj:
                     def __call__(slf, index, value=None):
@@ -293,7 +293,7 @@ def _classes():
                     o.name = f"nc_{me}_{j}"
                 elif flavour == "named_object_int":
                     o.name = 100000 + 100 * int(me[1:]) + j if me[1:].isdigit() else 7
-                return o, (str(o.name) if hasattr(o, "name") else None)
+                return o, (str(o.name) if hasattr(o, "name") else "Obj.__call__")
             if flavour == "table_scalar":
                 t = builder.lookup.build_table(5.0)
             elif flavour == "table_categorical":
@@ -865,9 +865,10 @@ _COQ_CASES = []
 # what a source / modifier callable may be (values.py decides by isinstance(Pipeline) / hasattr(name) / __self__ / __name__)
 SRC_FLAVOURS = ["function", "lambda", "bound", "partial", "object", "named_object", "named_object_int", "table_scalar",
                 "table_categorical", "table_interpolated"]
-# not "partial" / "object" as modifiers: _get_modifier_name crashes on them in the unchanged code (reported finding)
-MOD_FLAVOURS = [f for f in SRC_FLAVOURS if f not in ("partial", "object")]
-STEP_FLAVOURS = ["bound", "function", "lambda", "named_object", "named_object_int"]       # must return real step sizes
+# "partial" / "object" as modifiers are named "<ClassName>.__call__" (they crashed _get_modifier_name before the repair
+# of finding F-AK, /repo 365da3bb: typo `__class__.name__`)
+MOD_FLAVOURS = list(SRC_FLAVOURS)
+STEP_FLAVOURS = ["bound", "function", "lambda", "partial", "object", "named_object", "named_object_int"]       # must return real step sizes
 
 
 class Prog:
